@@ -39,6 +39,15 @@ func c16wWorld(translation bool) (*vfWorld, error) {
 		return w, nil
 	}
 	w, err := vfNewTCPWorld(func(cfg *config.ClusterConnConfig) {
+		// unrelated settings next to the policy under test (a different subset in each of the two worlds and per seed)
+		knobs := vfKnobFVI | vfKnobSAMap | vfKnobMuxCount
+		if translation {
+			knobs = vfKnobRepEP | vfKnobLCM11
+		}
+		if vfshared.Seed()%2 == 1 {
+			knobs ^= vfKnobFVI | vfKnobRepEP | vfKnobSAMap
+		}
+		vfUnrelated(cfg, knobs)
 		cfg.ACLPolicy = &config.ACLPolicy{AllowedNamespaces: []string{"allowed-ns", "allowed-2"}}
 		if translation {
 			cfg.NamespaceTranslation.Mappings = []config.StringMapping{{Local: "allowed-ns", Remote: "r-allowed-ns"}, {Local: "forbidden-ns", Remote: "r-forbidden-ns"}, {Local: "allowed-2", Remote: "r-allowed-2"}}
